@@ -39,6 +39,29 @@ theorem produceValue_saved (env : Env H V) (d : Bool) (now : Int) (g : Gen V) (f
     · simp [produce_frame]
     · simp
 
+theorem readGen_saved (env : Env H V) (d : Bool) (now : Int) (pt : PType) (g : Gen V) (f : Bool) :
+    (readGen env d now pt g f).2.saved = g.saved ∧ (readGen env d now pt g f).2.kind = g.kind := by
+  unfold readGen
+  split
+  · simp
+  · exact produceValue_saved env d now g f
+
+/-- a generation that raises leaves the cached value and time untouched -/
+theorem readGen_raised (env : Env H V) (d : Bool) (now : Int) (pt : PType) (g : Gen V) (f : Bool) (e : Exc)
+    (h : g.failsNow = some e) (hc : willCall d now g f = true) :
+    (readGen env d now pt g f).1 = .raised e ∧ (readGen env d now pt g f).2.last = g.last ∧
+    (readGen env d now pt g f).2.lastTime = g.lastTime ∧ (readGen env d now pt g f).2.saved = g.saved := by
+  unfold readGen
+  simp [hc, h]
+
+theorem readGen_nofail (env : Env H V) (d : Bool) (now : Int) (pt : PType) (g : Gen V) (f : Bool)
+    (h : (if willCall d now g f then g.failsNow else none) = none) :
+    readGen env d now pt g f =
+      ((if f then .ok (.val (produceValue env d now g f).1) else validateRead pt (produceValue env d now g f).1),
+       (produceValue env d now g f).2) := by
+  unfold readGen
+  rw [h]
+
 theorem readSlot_frame (env : Env H V) (w : World V) (tg : Target) (p : Nat) (f : Bool) :
     (readSlot env w tg p f).2.clock = w.clock ∧ (readSlot env w tg p f).2.dynTD = w.dynTD ∧
     (readSlot env w tg p f).2.defaults = w.defaults ∧ (readSlot env w tg p f).2.insts = w.insts ∧
@@ -147,7 +170,8 @@ def GenOK (env : Env H V) (g : Gen V) : Prop :=
 
 def HeapOK (env : Env H V) (hp : List (Gen V)) : Prop := ∀ g ∈ hp, GenOK env g
 
-theorem GenOK_fresh (env : Env H V) (k : GenKind) : GenOK env (Gen.fresh k : Gen V) := by
+theorem GenOK_fresh (env : Env H V) (k : GenKind) (f : Option (Nat × Exc) := none) :
+    GenOK env (Gen.fresh k f : Gen V) := by
   unfold GenOK Gen.fresh CacheOK
   cases k <;> simp
 
@@ -184,6 +208,14 @@ theorem GenOK_produce (env : Env H V) (now : Int) (g : Gen V) (f : Bool) (h : Ge
       simp only [hk] at h ⊢
       exact ⟨Or.inl ⟨now, rfl, by simp [produce_val_td env g now n s hk]⟩, h.2⟩
   · exact h
+
+theorem GenOK_readGen (env : Env H V) (now : Int) (pt : PType) (g : Gen V) (f : Bool) (h : GenOK env g) :
+    GenOK env (readGen env true now pt g f).2 := by
+  unfold readGen
+  split
+  · unfold GenOK at *
+    exact h
+  · exact GenOK_produce env now g f h
 
 theorem HeapOK_set (env : Env H V) (hp : List (Gen V)) (i : Nat) (g : Gen V)
     (h : HeapOK env hp) (hg : GenOK env g) : HeapOK env (hp.set i g) := by
@@ -258,7 +290,7 @@ theorem readSlot_ok (env : Env H V) (w : World V) (tg : Target) (p : Nat) (f : B
     · exact h
     · rename_i g hg
       simp only [hd]
-      exact HeapOK_set env _ _ _ h (GenOK_produce env _ g f (HeapOK_get env _ _ g h hg))
+      exact HeapOK_set env _ _ _ h (GenOK_readGen env _ _ g f (HeapOK_get env _ _ g h hg))
   · exact h
 
 theorem srcSlot_ok (env : Env H V) (w : World V) (src : Src) (r : Slot × List (Gen V))
@@ -268,10 +300,10 @@ theorem srcSlot_ok (env : Env H V) (w : World V) (src : Src) (r : Slot × List (
   · simp only [Option.some.injEq] at hr; subst hr; exact h
   · split at hr
     · simp only [Option.some.injEq] at hr; subst hr
-      exact HeapOK_append env _ _ h (GenOK_fresh env _)
+      exact HeapOK_append env _ _ h (GenOK_fresh env _ _)
     · simp at hr
   · simp only [Option.some.injEq] at hr; subst hr
-    exact HeapOK_append env _ _ h (GenOK_fresh env _)
+    exact HeapOK_append env _ _ h (GenOK_fresh env _ _)
   · split at hr
     · simp at hr
     · simp only [Option.some.injEq] at hr; subst hr
@@ -461,7 +493,7 @@ theorem readSlot_shape (env : Env H V) (w : World V) (tg : Target) (p : Nat) (f 
           rcases Nat.lt_or_ge gi w.gens.length with h | h
           · exact h
           · simp [List.getElem?_eq_none h] at hg
-        simp [List.getElem?_set_self hlt, hg, (produceValue_saved env w.dynTD w.clock.time g f).1]
+        simp [List.getElem?_set_self hlt, hg, (readGen_saved env w.dynTD w.clock.time pt g f).1]
       · simp [List.getElem?_set_ne hx]
   · exact SameShape.refl w
 
